@@ -272,7 +272,10 @@ def op_fork(o: dict) -> dict:
                 FORK_TAG = f"-w{k}"  # concurrent processes build in their own folders (sharing one is the user's race, not SPSDK's)
                 arts = []
                 for j, so in enumerate(subops):
-                    a = OPS[so["op"]](so)
+                    a = OPS[so["op"]](dict(so, _index=f"{o['_index']}.w{k}.{j}"))
+                    if "many" in a:
+                        arts += a["many"]
+                        continue
                     a["op_index"] = f"{o['_index']}.w{k}.{j}"
                     arts.append(a)
                 with os.fdopen(w, "w") as f:
@@ -286,7 +289,10 @@ def op_fork(o: dict) -> dict:
         children.append((pid, r))
     ent.forks += 1
     for j, so in enumerate(o.get("parent", [])):
-        a = OPS[so["op"]](so)
+        a = OPS[so["op"]](dict(so, _index=f"{o['_index']}.p.{j}"))
+        if "many" in a:
+            results += a["many"]
+            continue
         a["op_index"] = f"{o['_index']}.p.{j}"
         results.append(a)
     for pid, r in children:
@@ -362,6 +368,9 @@ def op_otfad(o: dict) -> dict:
     if o.get("export") or explicit:
         pd = kb.plain_data()
         slots["zero_fill"] = pd[32:36].hex()
+        if o.get("export_twice"):
+            # the same blob serialised again (wrapped for another device): a new artifact, a new filler
+            slots["zero_fill_again"] = kb.plain_data()[32:36].hex()
     return {"kind": "otfad", "slots": slots, "explicit": explicit, "pair": ["key", "ctr_init_vector"]}
 
 
@@ -454,6 +463,55 @@ def op_hab(o: dict) -> dict:
     # the workspace is durable state: it survives "restarts" (epochs) of one history, like a build folder does
     td = os.path.join(WORKDIR, o.get("ws", "ws0") + FORK_TAG)
     os.makedirs(td, exist_ok=True)
+    if o.get("interleave"):
+        # another build of the same project runs to completion right after this one has written its key file and
+        # before it takes its next step (a schedule of two concurrent builds in one folder)
+        import builtins
+
+        real_open = builtins.open
+        dek_path = os.path.abspath(os.path.join(td, "dek.bin"))
+        state = {"armed": True, "other": None}
+
+        class Proxy:
+            def __init__(self, f):
+                self._f = f
+
+            def __getattr__(self, name):
+                return getattr(self._f, name)
+
+            def __enter__(self):
+                self._f.__enter__()
+                return self
+
+            def __exit__(self, *exc):
+                r = self._f.__exit__(*exc)
+                self._after()
+                return r
+
+            def close(self):
+                self._f.close()
+                self._after()
+
+            def _after(self):
+                if state["armed"]:
+                    state["armed"] = False
+                    state["other"] = CsfHabSegment.get_dek_from_config(cfg, search_paths=[td])
+
+        def hooked(file, mode="r", *a, **kw):
+            f = real_open(file, mode, *a, **kw)
+            if state["armed"] and isinstance(file, (str, os.PathLike)) and any(c in mode for c in "wa") and os.path.abspath(file) == dek_path:
+                return Proxy(f)
+            return f
+
+        builtins.open = hooked
+        try:
+            dek = CsfHabSegment.get_dek_from_config(cfg, search_paths=[td])
+        finally:
+            builtins.open = real_open
+        arts = [{"kind": "hab_dek", "slots": {"dek": dek.hex()}, "explicit": [], "op_index": f"{o.get('_index')}.a"}]
+        if state["other"] is not None:
+            arts.append({"kind": "hab_dek", "slots": {"dek": state["other"].hex()}, "explicit": [], "op_index": f"{o.get('_index')}.b"})
+        return {"kind": "hab_pair", "many": arts}
     dek = CsfHabSegment.get_dek_from_config(cfg, search_paths=[td])
     with open(os.path.join(td, "dek.bin"), "rb") as f:
         stored = f.read()
@@ -544,6 +602,13 @@ def run_epoch(spec: dict) -> dict:
     install(ent, spec["wall_us"])
     import importlib
     import logging
+    import random as _random
+
+    # an interpreter seeds its global (non-cryptographic) PRNG from OS entropy when it starts; an application may then
+    # seed it with a constant for its own purposes (reproducible shuffles, tests). Secrets must not depend on it.
+    _random.seed(int.from_bytes(ent.token_bytes(32), "big"))
+    if spec.get("app_seed") is not None:
+        _random.seed(spec["app_seed"])
 
     logging.disable(logging.CRITICAL)
     out = {"artifacts": [], "errors": []}
@@ -556,7 +621,8 @@ def run_epoch(spec: dict) -> dict:
         assert os.path.realpath(spsdk.__file__).startswith(os.path.realpath(repo) + os.sep), spsdk.__file__
         import spsdk.crypto.rng as rng
 
-        out["seam_ok"] = rng.token_bytes.__self__ is ent if hasattr(rng.token_bytes, "__self__") else False
+        tb = getattr(rng, "token_bytes", None)
+        out["seam_ok"] = getattr(tb, "__self__", None) is ent
         from simkit.simtime import CLOCK
 
         for k, o in enumerate(spec["ops"]):
